@@ -22,6 +22,42 @@ def _base(seed, engine, gen_out, ops, **kw):
     return sc
 
 
+_SYNC_LINES = []
+
+
+def _sync_code_lines():
+    """Line numbers of sync_interpreter.py that carry code (from the compiled module's line tables)."""
+    if not _SYNC_LINES:
+        import xstate_statemachine.sync_interpreter as _m
+        with open(_m.__file__) as f:
+            top = compile(f.read(), _m.__file__, "exec")
+        seen = set()
+        stack = [top]
+        while stack:
+            co = stack.pop()
+            for _s, _e, ln in co.co_lines():
+                if ln:
+                    seen.add(ln)
+            stack.extend(c for c in co.co_consts if hasattr(c, "co_lines"))
+        _SYNC_LINES.extend(sorted(seen))
+    return _SYNC_LINES
+
+
+def _line_preempts(rng, sc, p=0.5):
+    """Location-keyed pre-emption points for the sync engine: source lines drawn uniformly over LINES, so a line that runs
+    once per drain (a finally block, a lock release) is as likely a switch point as a line of a hot loop."""
+    if rng.random() >= p:
+        return
+    lines = _sync_code_lines()
+    pts = []
+    for _ in range(rng.randint(3, 10)):
+        ln = rng.choice(lines)
+        # a short run of consecutive lines widens narrow windows (check ... release)
+        for d in range(rng.choice((1, 1, 2, 3))):
+            pts.append(["sync_interpreter.py", ln + d, rng.choice((0, 0, 1, 2, 3))])
+    sc["sched"]["preempt_lines"] = pts
+
+
 # ===========================================================================
 # C08 - delayed transitions
 # ===========================================================================
@@ -98,6 +134,7 @@ def gen_c08_burst(engine):
                 sc["sched"]["preempt"] = sorted(rng.sample(range(1, 4000), rng.randint(1, 3)))
             if r > 0.4:
                 sc["sched"]["noise"] = rng.choice((0.001, 0.005, 0.02))
+            _line_preempts(rng, sc)
         return sc
     return g
 
@@ -287,6 +324,11 @@ def gen_c04(engine, mode):
                 tag += 1
                 ops.append({"op": "send", "event": rng.choice(mg.events), "tag": tag, "p": c, "t": t, "client": c,
                             "wait": False, "obs": False, "tie": rng.choice(("before", "after"))})
+        if mode in ("threads", "multi") and len(ops) > 3:
+            # idle points in the middle of the run: whatever was accepted before them must have been processed by then
+            for _ in range(rng.choice((1, 2, 3))):
+                k = rng.randint(2, len(ops))
+                ops.insert(k, {"op": "settle"})
         sc = _base(seed, engine, out, ops, horizon=t + 500 * MS)
         if engine == "sync" and mode == "threads":
             r = rng.random()
@@ -294,6 +336,7 @@ def gen_c04(engine, mode):
                 sc["sched"]["preempt"] = sorted(rng.sample(range(1, 6000), rng.randint(1, 3)))
             if r > 0.4:
                 sc["sched"]["noise"] = rng.choice((0.001, 0.005, 0.02))
+            _line_preempts(rng, sc)
         return sc
     return g
 
@@ -874,6 +917,7 @@ def gen_c14(engine, mode):
                 sc["sched"]["preempt"] = sorted(rng.sample(range(1, 5000), rng.randint(1, 3)))
             if r > 0.4:
                 sc["sched"]["noise"] = rng.choice((0.001, 0.005, 0.02))
+            _line_preempts(rng, sc)
         return sc
     return g
 
